@@ -5,7 +5,7 @@ import vlib
 PID = 'C14'
 
 CLAIM = dict(
-    text='ComplexFun.tla is a catalogue of the 38 public Complex<f64> functions: 57 defining relations chosen definitionally (power series for exp/sin/cos/sinh/cosh, '
+    text='ComplexFun.tla is a catalogue of the 38 public Complex<f64> functions: 59 relations chosen definitionally (power series for exp/sin/cos/sinh/cosh, '
          'reduction to the real function on the real axis, tan = sin/cos, cot = cos/sin and the reciprocal functions (each judged relative to |f(z)|), f(f^-1(z)) = z for ln and the twelve inverse functions, (sqrt z)^2 = z, '
          'z^w = exp(w ln z), log_b z = ln z / ln b, polar round trip, Pythagorean identities, closed forms of new/conj/abs_sqr/abs/zero/one), the inverse/reciprocal pairings, '
          'the stated range predicates (Re sqrt >= 0, Im ln in (-pi,pi], Re asin in [-pi/2,pi/2], Re acos in [0,pi], arg in (-pi,pi]), singular points, branch cuts, and a lattice of 941 regions '
@@ -13,14 +13,17 @@ CLAIM = dict(
          'neighbourhoods of the 24 poles/zeros n*pi/2, |n| <= 6, of tan/sec/cot/csc on the real and of tanh/sech/coth/csch on the imaginary axis at distances 1e-3, 1e-4, 1e-5, 1e-6 in 8 directions; '
          'the -0.0 twins of every axis ray and modulus class incl. +-1, +-i; the point 0). '
          'TLC checks the catalogue\'s consistency (every function has a defining relation bottoming out in series/closed forms within 3 levels; pairings mutual and parallel between the trigonometric and hyperbolic tables; '
-         'every cut has lattice regions on it and on both sides of it on every segment; the matrix shape) and enumerates the complete obligation list: relation x region (11 742) plus exact expectations '
+         'every cut has lattice regions on it and on both sides of it on every segment; the matrix shape) and enumerates the complete obligation list: relation x region (11 774) plus exact expectations '
          'sqrt(w^2) for the 48 Gaussian integers |Re|,|Im| <= 3 (principal root by the sign rule) and z^k for 24 Gaussian integers x k in -3..3, computed with ComplexField.tla. '
+         'For every evaluation point the harness calls ALL catalogue functions back to back on that same z, each twice in a row (bit-identical results demanded), in catalogue order, reversed, shuffled, or with a chosen ordered pair of the 20 modulus/phase-decomposing functions in front, and takes every value a relation uses from that one pass; '
+         'at the end of a pass all 400 ordered pairs must have been adjacent (checked by the trace specification against ComplexFun.Decomp). '
+         'pow/powf are additionally judged for exponents k +- (1 ulp, 1e-15 .. 1e-6) around every integer -3..3 and +-0.5, +-1.5 (pow also with imaginary part +-1e-9) against exp(w ln z) in double-double. '
          'The harness discharges every obligation on the real code; the trace specification accepts iff EVERY obligation appears, in the specification\'s own order, with the parameters the specification fixed, '
          'err_units <= 1, range flag true.',
     note='Decided by the specification/TLC: the case matrix, its complete coverage, the range predicates and which functions pair up, the exact sqrt/integer-power expectations. '
          'NOT decided by TLC: the numeric agreement. TLC cannot evaluate a transcendental function; err_units is measured by trusted Rust code (harness/src/suites/cfun.rs) against independent references '
          '(double-double power series, exp by argument halving, ln by Newton iteration on that exp from the real std ln/atan2, real std functions on the axes) in units of 64*eps*max(1,|values|)*cond, '
-         'where cond is a per-relation constant calibrated on the unchanged tree (26 seeds x 4 passes x 8 random points per region = 26.1e6 evaluations: worst observation 0.0078 unit, i.e. 128x below the guard; no range-predicate failure). This part is of level "exploration" in substance: '
+         'where cond is a per-relation constant calibrated on the unchanged tree (26 seeds x 4 passes x 8 random points per region = 36.7e6 evaluations: worst observation 0.0078 unit, i.e. 128x below the guard; no range-predicate failure). This part is of level "exploration" in substance: '
          'a branch/sign/quadrant error is O(|z|) >= 1e-3, i.e. >= 1e9 units, but an error below ~1e-12 relative is not detected. On a branch cut only the range predicate and the right-inverse identity are demanded (no side convention): for arguments with a -0.0 part the open ends of the ranges are closed by the specification and z^w is accepted for either limit of ln z. Next to the poles the quotient definitions are evaluated in double-double from the crate\'s own sin/cos/sinh/cosh at the same f64 argument, so a closed form that cancels there (relative error eps/(2 d^2)) is rejected from d = 1e-3 on. The point 0 lies outside 1e-3 <= |z| but inside the non-overflowing domain; only relations whose members are all finite there are demanded. '
          'Range predicates not stated by the property (e.g. Re acosh >= 0) are not demanded.',
     design='4 (C14), 8, Appendix C')
